@@ -132,6 +132,16 @@ Theorem C10_bell_state_by_name :
   Nat.eqb (List.length gen_bell_conv) (4 * List.length gen_qlink_BellState) = true.
 Proof. vm_compute. split; reflexivity. Qed.
 
+(* measure-directly handles: the outcome is post-processed exactly for a RECEIVER that expects Phi+ (a
+   creator's handle returns the raw outcome of its pair's response), and every handle carries the requested
+   rotations; tabulated from the real deserialize_epr_measure_results for both roles, expectation on/off,
+   n = 1..4 *)
+Theorem C10_measure_post_process_flags :
+  forallb (fun x => match x with (role, expect, _, _, pp, rot) =>
+             Bool.eqb pp (expect && String.eqb role "RECV") && rot end) gen_measure_flags = true /\
+  Nat.eqb (List.length gen_measure_flags) 40 = true.
+Proof. vm_compute. split; reflexivity. Qed.
+
 (* the named bases: rotation_to_basis inverts basis_to_rotation (post-processing recognises
    the basis the request was made with); 6 rows *)
 Theorem C10_named_bases_roundtrip :
